@@ -136,7 +136,7 @@ pub fn gen_lexical(src: &mut Src) -> String {
             1 => format!("{}", (1i64 << 31) + src.range(-3, 3)),
             2 => format!("{}", -(1i64 << 31) + src.range(-3, 3)),
             3 => format!("-0{}", src.below(3)),
-            4 => format!("00{}", src.below(9)),
+            4 => format!("{}{}", "0".repeat(1 + src.size(60)), src.below(2147483647)),
             5 => "- 1".to_string(),
             6 => format!("-{}{}", *src.pick(&["٣", "¹", "a", "", " ", "-1", "+1", "１", "½", "²", "①", "०", "৩", "٠"]), if src.flip() { "5" } else { "" }),
             _ => format!("{}{}", src.below(10), "0".repeat(src.below(14))),
@@ -159,6 +159,17 @@ pub fn gen_lexical(src: &mut Src) -> String {
         }
         if d == '`' && src.flip() {
             body = format!("\"{}\"", body);
+        }
+        if src.chance(70) {
+            // a JSON text (or almost one), bare or padded with blanks of every kind:
+            // only JSON's own four blanks may surround the value of a literal
+            body = crate::gen_doc::gen_jsonish(src).replace('`', "");
+            if d == '"' {
+                body = body.replace('"', "");
+            }
+            if d == '\'' {
+                body = body.replace('\'', "");
+            }
         }
         let close = if src.chance(230) { d.to_string() } else { String::new() };
         format!("{}{}{}", d, body, close)
